@@ -307,7 +307,7 @@ def case_strategy(draw, tier="quick"):
         if si < nscopes - 1 and sc["data"] and sc["data"][-1].get("indep") and G.chance(draw, 70):
             sc["leave_indep"] = True
         scopes.append(sc)
-    return {"fmt": fmt, "k": k, "dims": dims, "scopes": scopes}
+    return {"fmt": fmt, "k": k, "dims": dims, "scopes": scopes, "aggr": min(k, draw(st.sampled_from([0, 0, 0, 1, 2])))}
 
 
 # ------------------------------------------------------------------ builder
@@ -346,7 +346,12 @@ def build(case):
     nontrivial = False
     snapchecks = []
     path = "t.nc"
-    p.op("create", step=True, f="f0", path=hx(path), mode=MODE[fmt])
+    ikw = {}
+    if case.get("aggr"):
+        p.s.op("info", i="i1", **{"h__nc_num_aggrs_per_node": hx(str(case["aggr"]))})
+        ikw = {"info": "i1"}
+        labels.add("intra_node_aggregation")
+    p.op("create", step=True, f="f0", path=hx(path), mode=MODE[fmt], **ikw)
     for i, l in enumerate(dims):
         p.op("def_dim", step=True, f="f0", name=hx("d%d" % i), len=l)
         fm.dims.append(("d%d" % i, l))
@@ -364,7 +369,7 @@ def build(case):
         if si > 0:
             if sc.get("reopen"):
                 p.op("close", step=True, f="f0")
-                p.op("open", step=True, f="f0", path=hx(path), mode=1)
+                p.op("open", step=True, f="f0", path=hx(path), mode=1, **ikw)
                 labels.add("reopen")
             p.op("redef", step=True, f="f0")
             mo.begin_scope(bool(sc.get("reopen")))
